@@ -1,7 +1,7 @@
 //! C20 — lazy per-depth layers under concurrent first use.
 //! One process = one set of "first uses" (each depth of each table is created at most once per process).
 //! Run under Miri (many seeds = many schedules + data-race detector), under ThreadSanitizer, and natively.
-//! usage: conc <threads> <mode: same|mixed|both|stagger> <seed> [light|lightsurf|full]
+//! usage: conc <threads> <mode: same|mixed|both|stagger> <seed> [light|lightsurf|full] [delay=<ms>]
 //! Prints one line "C20-RESULT {json}" at the end; exits 1 on a monitor violation (assertion on counts / identity / results).
 use cdshealpix::nested::{self, Layer};
 use std::sync::atomic::{AtomicU64, Ordering};
@@ -45,6 +45,12 @@ fn main() {
   // "light": few depths, coverages only for depth <= 6 (Miri); "lightsurf": the same plus the whole public surface; absent / "full": everything
   let light = a.get(4).map(|s| s.starts_with("light")).unwrap_or(false);
   let surface = a.get(4).map(|s| s != "light").unwrap_or(true);
+  // failpoint: the constructors of the two lazily initialised tables sleep (the building thread is "descheduled" between claiming the
+  // slot and publishing it); with a delay only a few depths are used so that a process stays short
+  let delay: usize = a.iter().find_map(|s| s.strip_prefix("delay=").and_then(|v| v.parse().ok())).unwrap_or(0);
+  #[cfg(cdshealpix_verif)]
+  cdshealpix::verif::CONSTRUCTION_DELAY_MS.store(delay, Ordering::SeqCst);
+  let light = light || delay > 0;
   let depths: Vec<u8> = if light { let mut v: Vec<u8> = (0..30u8).filter(|d| (*d as u64 + seed) % 5 == 0).collect(); if v.is_empty() { v.push(3); } v } else { (0..30u8).collect() };
   let mut violations: Vec<String> = Vec::new();
   let mut all: Vec<Obs> = Vec::new();
@@ -105,7 +111,7 @@ fn main() {
     }
   }
   let hooks = cfg!(cdshealpix_verif);
-  println!("C20-RESULT {{\"threads\": {}, \"mode\": \"{}\", \"seed\": {}, \"calls\": {}, \"depth_groups\": {}, \"groups_with_overlapping_calls\": {}, \"distinct_completion_orders\": {}, \"orders\": [{}], \"hooks\": {}, \"violations\": [{}]}}",
-    threads, mode, seed, all.len(), groups, overlapped, orders.len(), orders.iter().map(|o| format!("\"{}\"", o)).collect::<Vec<_>>().join(", "), hooks, violations.iter().map(|v| format!("\"{}\"", v)).collect::<Vec<_>>().join(", "));
+  println!("C20-RESULT {{\"threads\": {}, \"mode\": \"{}\", \"seed\": {}, \"calls\": {}, \"depth_groups\": {}, \"groups_with_overlapping_calls\": {}, \"distinct_completion_orders\": {}, \"orders\": [{}], \"hooks\": {}, \"construction_delay_ms\": {}, \"violations\": [{}]}}",
+    threads, mode, seed, all.len(), groups, overlapped, orders.len(), orders.iter().map(|o| format!("\"{}\"", o)).collect::<Vec<_>>().join(", "), hooks, delay, violations.iter().map(|v| format!("\"{}\"", v)).collect::<Vec<_>>().join(", "));
   if !violations.is_empty() { std::process::exit(1); }
 }
